@@ -332,6 +332,12 @@ func runC17(c *ctx) {
 		np = 120
 	}
 	c.c17PanicConcurrent(0, np)
+	// several handlers of one party created from ONE config object, running concurrently (c17_shared.go)
+	ns := 6
+	if c.thorough() {
+		ns = 40
+	}
+	c.c17SharedConfig(ns, 8)
 	// TwoPartyHandler (Doerner sessions): same oracles, replayed in Model/TwoParty.v; a few of its (larger) histories go to cases.v
 	c.m.MaxLog, c.m.MaxLogSize = c.m.MaxLog+12, 8000
 	c.c17TwoParty()
@@ -340,7 +346,8 @@ func runC17(c *ctx) {
 // runC17Race: concurrent use; meaningful only in the binary built with -race (the race detector aborts with exit code 66).
 func runC17Race(c *ctx) {
 	c.res.Rule = "4-8 goroutines call Accept/CanAccept/Listen/Result/Stop concurrently on the MultiHandlers of xor and FROST sessions and the TwoPartyHandlers of Doerner key generation (binary built with -race); " +
-		"xor / FROST keygen sessions in which processing one message panics inside the round while other goroutines call Result / CanAccept / Stop / Accept"
+		"xor / FROST keygen sessions in which processing one message panics inside the round while other goroutines call Result / CanAccept / Stop / Accept; " +
+		"8 concurrent FROST / FROST-Taproot signing sessions (same and different messages, all signer sets) whose handlers are created from ONE config object per party, results checked by the reference verifier"
 	iters := 60
 	if c.thorough() {
 		iters = 600
@@ -479,5 +486,11 @@ func runC17Race(c *ctx) {
 		np = 360
 	}
 	c.c17PanicConcurrent(0, np)
+	// several handlers of one party created from ONE config object, running concurrently (c17_shared.go)
+	nsh := 6
+	if c.thorough() {
+		nsh = 40
+	}
+	c.c17SharedConfig(nsh, 8)
 	c.res.Sample(1, "concurrent sessions completed; data races are reported by the race detector (exit code 66)")
 }
